@@ -3,7 +3,9 @@
 (*                                                                              *)
 (* The schema of this module (rendered by the harness):                           *)
 (*   doc   := rec+                                                                *)
-(*   rec   := @id:int (required) @flag:boolean? @ucode:code?                       *)
+(*   rec   := @id:int (required) @flag:boolean? @ucode:code? @ver:int fixed 1 ?    *)
+(*            (ver accompanies flag), fx:int fixed 1 ? (after name; accompanies     *)
+(*            price)                                                              *)
 (*            name:string, tags:list of int {0,2}, code?, opt?, mark?, alt?,       *)
 (*            price?, para?, (a:int | b:string)*                                   *)
 (*   alt   := @kind:boolean (required); XSD 1.1: the type alternative             *)
@@ -44,20 +46,22 @@ RECURSIVE AllAB(_)
 AllAB(w) == w = <<>> \/ (Head(w) \in {"a", "b"} /\ AllAB(Tail(w)))
 Opt(w, x) == IF w # <<>> /\ Head(w) = x THEN Tail(w) ELSE w
 RecContentOK(w) == /\ w # <<>> /\ Head(w) = "name"
-                   /\ AllAB(Opt(Opt(Opt(Opt(Opt(Opt(Opt(Opt(Tail(w), "tags"), "tags"), "code"), "opt"),
+                   /\ AllAB(Opt(Opt(Opt(Opt(Opt(Opt(Opt(Opt(Opt(Tail(w), "fx"), "tags"), "tags"), "code"), "opt"),
                                         "mark"), "alt"), "price"), "para"))
 
 NodeOK(ns, n) ==
   CASE n.name = "doc"  -> /\ n.attrs = {} /\ n.text = "-"
                           /\ LET w == NamesOf(KidsOf(ns, n.path)) IN
                                w # <<>> /\ \A i \in DOMAIN w : w[i] = "rec"
-    [] n.name = "rec"  -> /\ AttrNames(n) \subseteq {"id", "flag", "ucode"} /\ "id" \in AttrNames(n)
+    [] n.name = "rec"  -> /\ AttrNames(n) \subseteq {"id", "flag", "ucode", "ver"} /\ "id" \in AttrNames(n)
+                          /\ ("ver" \in AttrNames(n) => AttrVal(n, "ver") = "f1")      \* the fixed value, in value space
                           /\ AttrVal(n, "id") = "i"
                           /\ ("flag" \in AttrNames(n) => AttrVal(n, "flag") = "bool")
                           /\ ("ucode" \in AttrNames(n) => AttrVal(n, "ucode") \in {"u3", "ua"})
                           /\ n.text = "-" /\ RecContentOK(NamesOf(KidsOf(ns, n.path)))
     [] n.name = "name" -> n.attrs = {} /\ n.text \in {"s", "i", "d", "x", "-"} /\ NoKids(ns, n)
     [] n.name = "tags" -> n.attrs = {} /\ n.text \in {"l", "i", "-"} /\ NoKids(ns, n)
+    [] n.name = "fx"   -> n.attrs = {} /\ n.text \in {"f1", "-"} /\ NoKids(ns, n)     \* fixed 1; empty takes the fixed value
     [] n.name = "code" -> n.attrs = {} /\ n.text \in {"u3", "ua"} /\ NoKids(ns, n)
     [] n.name = "opt"  -> /\ AttrNames(n) \subseteq {"nil"} /\ NoKids(ns, n)
                           /\ IF "nil" \in AttrNames(n) /\ AttrVal(n, "nil") = "t" THEN n.text = "-"
@@ -93,6 +97,7 @@ Seq2Nodes(p, ks, i) == IF i > Len(ks) THEN <<>> ELSE
        ELSE IF ks[i][1] = "alt" THEN [k \in 1..ks[i][4] |-> Node(Append(Append(p, i), k), "x", {}, "s")] ELSE <<>>)
    \o Seq2Nodes(p, ks, i + 1)
 RecKids(c) == <<<<"name", {}, "s", 0>>>>
+              \o (IF c.price THEN <<<<"fx", {}, "f1", 0>>>> ELSE <<>>)
               \o [i \in 1..c.tags |-> <<"tags", {}, "l", 0>>]
               \o (IF c.code # "-" THEN <<<<"code", {}, c.code, 0>>>> ELSE <<>>)
               \o (CASE c.opt = "-" -> <<>>
@@ -107,7 +112,7 @@ RecKids(c) == <<<<"name", {}, "s", 0>>>>
               \o (IF c.price THEN <<<<"price", {<<"cur", "s">>}, "d", 0>>>> ELSE <<>>)
               \o (IF c.para > 0 THEN <<<<"para", {}, "m", c.para - 1>>>> ELSE <<>>)
               \o [i \in DOMAIN c.ab |-> <<c.ab[i], {}, IF c.ab[i] = "a" THEN "i" ELSE "s", 0>>]
-RecNodes(p, c) == <<Node(p, "rec", {<<"id", "i">>} \cup (IF c.flag THEN {<<"flag", "bool">>} ELSE {})
+RecNodes(p, c) == <<Node(p, "rec", {<<"id", "i">>} \cup (IF c.flag THEN {<<"flag", "bool">>, <<"ver", "f1">>} ELSE {})
                                     \cup (IF c.ucode # "-" THEN {<<"ucode", c.ucode>>} ELSE {}), "-")>>
                   \o Seq2Nodes(p, RecKids(c), 1)
 Contiguous(w) == \A i \in DOMAIN w : \A j \in DOMAIN w : (i < j /\ w[i] = w[j]) => \A k \in i..j : w[k] = w[i]
